@@ -33,6 +33,15 @@ int main(int argc, char** argv) {
     std::string why;
     std::vector<std::vector<unsigned long>> cases = {
         {8, 9, 4, 5, 6, 7, 1, 2, 3, 0}, {4, 8, 16, 15, 14, 13, 12, 11, 10, 9, 7, 6, 5, 3, 2, 1, 0}, {3, 2, 1, 0}, {1, 0, 3, 2, 5, 4}, {16, 17, 1, 2, 3, 4, 5, 6, 7, 8, 9, 10, 11, 12, 13, 14, 15, 0}};
+    // tokens 0..low-1 pass in order; `low` is held back; a few successors are parked; then one far-ahead token forces the ring to grow by several doublings at once
+    for (unsigned long low : {0ul, 3ul, 7ul, 12ul}) for (unsigned long parked = 1; parked <= 3; ++parked) for (unsigned long jump = 5; jump <= 40; ++jump) {
+        std::vector<unsigned long> p; unsigned long n = low + jump + 1;
+        for (unsigned long t = 0; t < low; ++t) p.push_back(t);
+        for (unsigned long t = low + 1; t <= low + parked; ++t) p.push_back(t);
+        p.push_back(low + jump); p.push_back(low);
+        for (unsigned long t = low + parked + 1; t < low + jump; ++t) p.push_back(t);
+        if (p.size() == n) cases.push_back(p);
+    }
     std::mt19937 rng(1);
     for (int r = 0; r < 3000; ++r) { size_t n = 2 + rng() % 40; std::vector<unsigned long> p(n); for (size_t i = 0; i < n; ++i) p[i] = i; std::shuffle(p.begin(), p.end(), rng); cases.push_back(p); }
     for (auto& c : cases) if (run(c, why)) {
